@@ -15,6 +15,13 @@ CLAIMED = {
         "Trusted: Coq kernel (vm_compute), hand model of ruler.py/main.py tied to the code only by the sampled correspondence, extraction+driver for the volume path (sample re-run in-kernel), gen.py translator for registries/presets. Rule functions are opaque tags.",
         "DESIGN.md §3 C11",
     ),
+    "C12": (
+        "proof",
+        "Coq proof (simulation modulo the lazily compiled caches, induction over multi-instance histories) on a world model of live MarkdownIt instances + differential correspondence of whole histories against the real library + fresh-instance probes",
+        "Theorems for ALL histories over any number of instances: every management call behaves and reports as a function of the configuration proper only (options, rules, render rules), never of cache state, i.e. never of which parses ran before (C12_behaviour_depends_on_configuration_only); parses are inert (C12_parse_inert, C12_parses_can_be_deleted); operations on one instance never change another (C12_isolation) and each instance equals its fresh replay (C12_equals_fresh_replay). The parser is a parameter of the model: the proved claim is that nothing but the configuration can reach it. That the code has no other channel (module globals, shared presets, class attributes, default arguments) is validated on every run: ~150 (quick) random multi-instance histories are run on the real library and on the model with every instance observed after every step, every live instance and _PRESETS are deep-compared around every call, and afterwards every instance must render/parse probe documents exactly like a fresh instance with only its own calls replayed (env omitted == fresh {}; references must not travel).",
+        "Trusted: Coq kernel; world model hand-written (Model/World.v, Model/Instance.v) and tied to main.py/ruler.py/utils.py by the sampled correspondence; frame condition 'a parse writes instance state only via Ruler.__cache__' is tested dynamically, not proved from source; extraction+driver (sample re-run in-kernel).",
+        "DESIGN.md §3 C12",
+    ),
 }
 
 NOT_YET = {}
